@@ -13,7 +13,7 @@ LEVEL_TEXT = ("Deductive over the civil-calendar model (datetime's constructor a
 TRUSTED = ['datetime (proleptic Gregorian civil <-> ordinal, weekday)', 'dateutil for ISO text', 'machine arithmetic treated as mathematical']
 
 
-def extra(report, env):
+def _sweep(report, env, label='', light=False):
     from pyvc import e2e
     rng = random.Random(env['seed'])
     p = e2e.new_parser()
@@ -27,7 +27,7 @@ def extra(report, env):
         ok = (r['error'] == want) if isinstance(want, str) and want.startswith('#') else (r['error'] is None and r['result'] == want)
         if not ok and len(fails) < 5:
             fails.append({'formula': text, 'detail': '%s expected %r got %r' % (what, want, r)})
-    years = list(range(1900, 10000, 1 if env['tier'] == 'thorough' else 37)) + [1900, 1904, 2000, 2100, 2400, 9999]
+    years = list(range(1900, 10000, 1 if (env['tier'] == 'thorough' and not light) else (37 if not light else 293))) + [1900, 1904, 2000, 2100, 2400, 9999]
     for y in years:
         for m in range(1, 13):
             for d in (1, 15, 28, calendar.monthrange(y, m)[1]):
@@ -99,12 +99,58 @@ def extra(report, env):
                 ok = r['result'] == want
             if not ok and len(fails) < 5:
                 fails.append({'formula': 'EDATE(%s,%d)' % (st.date(), n), 'detail': 'got %r' % (r,)})
-    bounded(report, 'C14.calendar', 'valid dates on a year grid (thorough: every year 1900..9999) x 12 months x 4 days: YEAR/MONTH/DAY/WEEKDAY(3 types); '
+    if label:
+        for f in fails:
+            f['tz'] = label
+            f['detail'] = 'with the process time zone set to %s: %s' % (label, f['detail'])
+    bounded(report, 'C14.calendar' + ('.tz' if label else ''), ('process time zone %s; ' % label if label else '') + 'valid dates on a year grid (thorough: every year 1900..9999) x 12 months x 4 days: YEAR/MONTH/DAY/WEEKDAY(3 types); '
             'TIME fields; ISO text; seeded serials and date pairs for DAYS/DATEDIF (d, m, y, ym); EDATE for 8 starts x ~170 offsets up to +-120000',
             cases, fails)
 
 
+def tz_obligations(report, env, prop):
+    """ table obligation: no date function converts through the process time zone (serials and calendar fields are civil, not local) """
+    from pyvc import frame
+    from props.common import table_obligations
+    res = [(n, ok, d) for n, ok, d in frame.clock_reads(env['repo']) if '.reads.local-time-zone.' in n]
+    res.append(('reads.local-time-zone.sites-enumerated', True, '%d call sites of .timestamp() / .astimezone() / tzlocal()' % len(res)))
+    table_obligations(report, prop, res)
+
+
+def with_tz(tz, fn):
+    """ run fn() with the process time zone set to the POSIX TZ string tz (calendar results must not depend on it) """
+    import os
+    import time
+    old = os.environ.get('TZ')
+    os.environ['TZ'] = tz
+    time.tzset()
+    try:
+        return fn()
+    finally:
+        if old is None:
+            os.environ.pop('TZ', None)
+        else:
+            os.environ['TZ'] = old
+        time.tzset()
+
+
+def extra(report, env):
+    tz_obligations(report, env, 'C14')
+    _sweep(report, env)
+    # the same sweep (thinner year grid) in two other process time zones, one of them with daylight saving: nothing in the statement
+    # depends on where the process runs
+    for tz in ('IST-5:30', 'PST8PDT,M3.2.0,M11.1.0'):
+        with_tz(tz, lambda: _sweep(report, env, label=tz, light=True))
+
+
 def replay(rp):
     from pyvc import e2e
-    print(rp)
+
+    def run():
+        p = e2e.new_parser()
+        print('parse(%r) -> %r ; %s' % (rp.get('formula'), p.parse(rp['formula']) if rp.get('formula') and '(' in rp['formula'] and 'EDATE(' not in rp['formula'] else '(see detail)', rp.get('detail')))
+    if rp.get('tz'):
+        with_tz(rp['tz'], run)
+    else:
+        run()
     return 1
